@@ -249,6 +249,7 @@ type vProbe struct {
 	yieldSub  bool // vYield inside SubscribeWithContext (widens the window for concurrent subscribers)
 	yieldEmit bool // vYield before each emission of a cold script (concurrent subscriptions interleave)
 	cold      bool
+	syncTerm  int  // if set: the next subscription emits this terminal synchronously inside Subscribe (once)
 	itemCtx   bool // attach a per-item marker to the context of each Next
 }
 
@@ -292,7 +293,11 @@ func (p *vProbe) SubscribeWithContext(ctx context.Context, d Observer[int64]) Su
 	if p.yieldSub {
 		vYield()
 	}
-	if p.scripts != nil {
+	if p.syncTerm != 0 {
+		k := p.syncTerm
+		p.syncTerm = 0
+		p.emitAt(i, vStep{kind: k})
+	} else if p.scripts != nil {
 		if i < len(p.scripts) {
 			for _, st := range p.scripts[i] {
 				p.emitAt(i, st)
